@@ -602,6 +602,7 @@ type hdClient struct {
 	msgs   [][]byte
 	closed bool
 	half   bool // the server's write half of this connection was shut: the client reads EOF, the server still reads
+	autoDialout bool // answer dial-out requests at once (hub property cases; C10 answers them itself)
 	gone   chan struct{}
 }
 
@@ -619,8 +620,11 @@ func (c *hdClient) reader() {
 		}
 		c.mu.Lock()
 		c.msgs = append(c.msgs, data)
+		auto := c.autoDialout
 		c.mu.Unlock()
-		c.answerDialout(data)
+		if auto {
+			c.answerDialout(data)
+		}
 	}
 }
 
